@@ -137,9 +137,6 @@ func TestWorker(t *testing.T) {
 	enumerate := os.Getenv("VERIF_ENUM") == "1"
 	digest := os.Getenv("VERIF_DIGEST") == "1"
 	start := time.Now()
-	if outPath != "" {
-		go watchdog(outPath, envInt("VERIF_WATCHDOG_S", 60))
-	}
 	out := WorkerOut{Prop: prop, Probes: map[string]int{}, Fired: map[string]int{}}
 	states := map[uint64]struct{}{}
 	scheds := map[uint64]struct{}{}
@@ -152,6 +149,11 @@ func TestWorker(t *testing.T) {
 			to = len(enumPlans)
 		}
 		out.Exhaustive = true
+	}
+	// the watchdog watches the kernel's step counter: it starts once the plans exist
+	// (building a large enumeration takes its time on a loaded machine)
+	if outPath != "" {
+		go watchdog(outPath, envInt("VERIF_WATCHDOG_S", 60))
 	}
 	skip := map[int]bool{}
 	for _, f := range strings.Split(os.Getenv("VERIF_SKIP"), ",") {
